@@ -1,5 +1,6 @@
 """Path-forking symbolic executor over compiled MIR (decision-replay forking, z3 for every
 symbolic branch).  See DESIGN.md section 3."""
+import os
 import re
 import sys
 import time
@@ -51,6 +52,7 @@ class Ctx:
                       'calls_interp': 0, 'calls_model': 0, 'infeasible': 0}
         self.depth = 0
         self.cur_fn = None
+        self.xcheck_every = int(os.environ.get('VERIF_XCHECK', '0') or 0)   # cross-check every n-th property query with cvc5
         self.tyargs = []              # stack of explicit type arguments of the calls being executed
         self.intercept = {}           # key or callee prefix -> python fn(ctx, call, *args)  (harness hooks)
         self.stop_at = ()             # lane B2: callee prefixes raising StopAtCall
@@ -969,7 +971,35 @@ class Ctx:
         t = time.time(); r = s.check(); self.stats['solver_s'] += time.time() - t; self.stats['queries'] += 1
         if r == z3.unknown:
             raise Unsupported('solver unknown on property query')
+        self.xcheck(s, r)
         return s.model() if r == z3.sat else None
+
+    def xcheck(self, s, r):
+        """second opinion: every VERIF_XCHECK-th property query is re-decided by cvc5 on the SMT-LIB2 dump of the
+        same assertions; a disagreement makes the run inconclusive (then the encoding or a solver is wrong)"""
+        every = self.xcheck_every
+        if not every: return
+        self._xn = getattr(self, '_xn', 0) + 1
+        if self._xn % every: return
+        import subprocess, tempfile
+        txt = '(set-logic ALL)\n' + s.to_smt2()
+        with tempfile.NamedTemporaryFile('w', suffix='.smt2', dir=os.environ.get('VERIF_WORK', '/verif/.work'), delete=False) as f:
+            f.write(txt); fn = f.name
+        try:
+            p = subprocess.run(['cvc5', '--lang', 'smt2', '--tlimit=20000', fn], stdout=subprocess.PIPE, stderr=subprocess.PIPE, text=True, timeout=40)
+            ans = p.stdout.strip().split('\n')[0] if p.stdout.strip() else ''
+        except Exception:
+            ans = 'timeout'
+        finally:
+            try: os.unlink(fn)
+            except OSError: pass
+        want = 'sat' if r == z3.sat else 'unsat'
+        if ans in ('sat', 'unsat'):
+            if ans != want:
+                raise Unsupported(f'solver disagreement: z3 says {want}, cvc5 says {ans}')
+            self.stats['xcheck_agree'] = self.stats.get('xcheck_agree', 0) + 1
+        else:
+            self.stats['xcheck_noanswer'] = self.stats.get('xcheck_noanswer', 0) + 1
 
     def model_of(self, pc):
         s = z3.Solver()
